@@ -4,9 +4,29 @@ DEFAULT_NOTE = ('trusts CPython ast, hyperframe/hpack as summarised from their '
                 '(transcribed from RFC 7540/7541/7838/8441); decides the listed '
                 'structural clauses, not the behaviour as a whole')
 
+_FSM = ('typestate: transition table + guarded commands extracted from the '
+        'AST, compared cell-wise with an RFC 7540 5.1 reference machine over '
+        'all API-reachable abstract states; ')
+
 INFO = {
  'C06': {
-  'technique': 'typestate: transition table + guarded commands extracted from the AST, compared cell-wise with an RFC 7540 5.1 reference machine over all API-reachable abstract states; path analysis of process_input and _receive_frame',
+  'technique': _FSM + 'path analysis of process_input and _receive_frame',
   'level': 'exhaustive static comparison of the extracted stream machine (78 cells x flag valuations, ~100 reachable abstract states x 19 inputs) with a hand-written reference, plus step-sequence contracts of every H2Stream method and the stream-error/connection-error mapping; any cell, guard, flag update or mapping that deviates is reported by cell',
+ },
+ 'C07': {
+  'technique': _FSM + 'grammar-phase invariants on every extracted transition; link=>append pairing, event-field value flow and local-reset recording by path effect traces',
+  'level': 'every RECV cell on every reachable abstract state, every related-event link, every event constructed by the machine; header contents and cross-stream ordering are not decided',
+ },
+ 'C08': {
+  'technique': _FSM + 'connection table vs a role reference per role with role gates extracted from path conditions; trailers/END_STREAM and 1xx selection by path analysis of H2Stream.send_headers',
+  'level': 'every SEND cell on every reachable abstract state, every (role, connection state, input) the role can feed; header-list validity is C14',
+ },
+ 'C20': {
+  'technique': 'typestate on reset-closed abstract states x in-flight receive inputs; dominance/ordering rules on frame handlers (decode before lookup, classification before connection-level refusals, RST => record, charged DATA => refill) by path effect traces',
+  'level': 'all reachable states closed by a local reset x 8 in-flight inputs; every path of the seven frame handlers that look a stream up; schedules themselves are not enumerated',
+ },
+ 'C22': {
+  'technique': 'ordered-gate (must-precede) analysis of push_stream and _receive_push_promise_frame on every path; push cells and reserved rows vs the reference machine; event-field value flow; allocation-before-raise atomicity',
+  'level': 'all paths of the two push entry points and the stream-level push methods, all push cells x reachable abstract states; ENABLE_PUSH timing over histories is not decided beyond "the acknowledged value is the one read"',
  },
 }
